@@ -40,9 +40,18 @@ class AV:
 
     def __getitem__(self, i):
         ctx = self._ctx
-        a = ctx.st.mem.objs.get(self._a.id, self._a)
+        if self._a.id not in ctx.st.mem.objs:          # inline array inside a struct value
+            return ctx.wrap(self._a.items[const_int(i)])
+        a = ctx.st.mem.objs[self._a.id]
         v = ctx.eng.read(ctx.st, Ptr(a.id, (as_int(i),)))
         return ctx.wrap(v)
+
+    def __setitem__(self, i, value):
+        ctx = self._ctx
+        if self._a.id not in ctx.st.mem.objs:
+            self._a.items[const_int(i)] = ctx.unwrap(value)
+            return
+        ctx.eng.write(ctx.st, Ptr(self._a.id, (as_int(i),)), ctx.unwrap(value))
 
     def leaf(self, i, *path):
         ctx = self._ctx
